@@ -18,6 +18,8 @@ HERE = os.path.dirname(os.path.abspath(__file__))
 def _reexec():
     # One integer decides everything: pin str hashing so that set/dict orders
     # that depend on it repeat, and never write bytecode into /repo.
+    if os.environ.get('VERIF_KEEP_HASHSEED') == '1' and os.environ.get('VERIF_REEXEC') == '1':
+        return
     if os.environ.get('PYTHONHASHSEED') != '0' or os.environ.get('VERIF_REEXEC') != '1':
         env = dict(os.environ)
         env['PYTHONHASHSEED'] = '0'
@@ -80,7 +82,8 @@ def main(argv):
     seed = int(os.environ.get('VERIF_SEED', '0') or 0)
     from sim import boot
     boot.boot()
-    from sim import kernel, state
+    from sim import kernel, state, selftest
+    selftest.apply_mutant_from_env()
     state.snapshot()
     if replay:
         return kernel.replay(prop, replay)
